@@ -1483,17 +1483,17 @@ V("C01", "C01.R1", "c01-call-template-wrong-args", "shroud/wrapf.py",
 V("C01", "C01.R2", "c01-bool-in-no-copy", "shroud/statements.py",
   '''        name="f_bool_in",
         c_local_var=True,
-        pre_call=["{c_var} = {f_var}  ! coerce to C_BOOL"],''',
+        pre_call=["{c_var} =\\t {f_var}  ! coerce to C_BOOL"],''',
   '''        name="f_bool_in",
         c_local_var=True,''', "fire", "f_bool_in")
 V("C01", "C01.R2", "c01-bool-inout-no-copy-back", "shroud/statements.py",
-  '''        pre_call=["{c_var} = {f_var}  ! coerce to C_BOOL"],
-        post_call=["{f_var} = {c_var}  ! coerce to logical"],''',
-  '''        pre_call=["{c_var} = {f_var}  ! coerce to C_BOOL"],
-        post_call=["{c_var} = {f_var}  ! coerce to logical"],''', "fire", "f_bool_inout")
+  '''        pre_call=["{c_var} =\\t {f_var}  ! coerce to C_BOOL"],
+        post_call=["{f_var} =\\t {c_var}  ! coerce to logical"],''',
+  '''        pre_call=["{c_var} =\\t {f_var}  ! coerce to C_BOOL"],
+        post_call=["{c_var} =\\t {f_var}  ! coerce to logical"],''', "fire", "f_bool_inout")
 V("C01", "C01.R2", "c01-bool-comment-changed", "shroud/statements.py",
-  '        post_call=["{f_var} = {c_var}  ! coerce to logical"],\n    ),\n    dict(\n        name="f_bool_inout",',
-  '        post_call=["{f_var} = {c_var}  ! to logical"],\n    ),\n    dict(\n        name="f_bool_inout",', "silent")
+  '        post_call=["{f_var} =\\t {c_var}  ! coerce to logical"],\n    ),\n    dict(\n        name="f_bool_inout",',
+  '        post_call=["{f_var} =\\t {c_var}  ! to logical"],\n    ),\n    dict(\n        name="f_bool_inout",', "silent")
 V("C01", "C01.R3", "c01-arg-c-call-insert", "shroud/wrapf.py",
   "                    arg_c_call.append(fmt.c_var)\n                continue",
   "                    arg_c_call.insert(0, fmt.c_var)\n                continue", "fire", "arg_c_call")
